@@ -259,7 +259,7 @@ func GenBase(r *Rand, p *Profile) *h.Scenario {
 		c.Terminal = true
 		c.TermW = wide
 		c.TermH = rows + 2 + r.Intn(4)
-		if r.Bool(p.PTightTerm) && !c.Pop {
+		if r.Bool(p.PTightTerm) {
 			c.TermH = r.Range(1, rows+2)
 		}
 		if r.Bool(p.PResize) {
